@@ -517,6 +517,18 @@ fn one_par<T: Sc>(out: &mut Out, rng: &mut Rng, thorough: bool, i: usize, thread
     if c.origin == "random" {
         c.origin = "par";
     }
+    // one case in six (cycled): consecutive updates that differ ONLY in the sign of a zero parameter
+    // (+0 -> -0 -> +0 -> ordinary -> -0: equal under `==`, different numbers); both flavours must follow (round 11)
+    if i % 6 == 5 && i % 12 != 11 {
+        let p = c.recipe.p();
+        let k = rng.below(p);
+        let mut a: Vec<T> = random_alpha(rng, p).iter().map(|v| T::of(*v)).collect();
+        let ordinary = a.clone();
+        a[k] = T::of(0.0);
+        let mut b = a.clone();
+        b[k] = T::of(-0.0);
+        c.history = vec![ordinary.clone(), a.clone(), b.clone(), a, ordinary, b];
+    }
     let w = c.w.clone();
     // one case in four: a partial derivative fails at some of the parameter vectors of the history
     // (the parallel Jacobian must then be absent exactly where the sequential one is)
